@@ -69,14 +69,14 @@ PROPS = {
             "valid choice stream, k simulations add exactly k root visits (fresh tree: exactly n; re-used: max), |value| <= visits "
             "for evaluations in [-1,1], the searched position is untouched. Wall-clock time_limit is not modelled (runs use 0).",
             "Coq theorem (tree invariant preserved by simulate, induction over the descent path) + trace-based differential correspondence in Coq",
-            "Recording evaluator / recorded torch.multinomial choices / fake Dirichlet in the harness; float32 priors compared within 1e-5 relative inside Coq, values dyadic hence exact. MCTS.update and the pure part of MCTS.populate are REGENERATED from the source (gen/MctsGen.v, mcts2coq over MctsSem.v/PySem.v) and proved equal to the backup and expansion steps of the model (C08_source_*); descend (sampling), analyze_tree (loop, time limit) and the aliasing of path records with tree nodes stay trace-tied.", "6/C08"),
+            "Recording evaluator / recorded torch.multinomial choices / fake Dirichlet in the harness; float32 priors compared within 1e-5 relative inside Coq, values dyadic hence exact. MCTS.update, populate, descend, analyze_tree, analyze, get_move, select_root_move and tree_probs are REGENERATED from the source (gen/MctsGen.v, mcts2coq over MctsSem.v/PySem.v) and proved equal to the model end to end: the regenerated search loop run for the simulation budget returns the tree of the model's analyze (C08_source_*); that Node objects form a tree without aliasing, time_limit > 0 and the stats counters stay trace-tied.", "6/C08"),
     "C09": (True, "Partial. Exact-arithmetic theorems: at every expanded node of a Good tree q_i is in [-1,1], child priors are positive "
             "and sum to 1 (given the evaluator gives a legal move the cutoff), lambda^2 > 0, before any visit the policy is the prior, "
             "after a visit it is solve(policy_inputs); every child move is accepted by the rules in the parent position, so the "
             "returned move is legal. The inputs (prior, q, lambda) the implementation hands to the solver at every call are compared "
             "with the model's inside Coq; 'to the accuracy the solver guarantees' rests on C10, whose float behaviour is not proved.",
             "Coq theorem over the tree invariant + correspondence of every solver call's inputs in Coq + rational oracle of the returned distribution",
-            "Solver output accuracy is C10's; the multiplier is compared BIT FOR BIT with a binary64 SpecFloat mirror (model/LambdaF64.v) of c*sqrt(N)/(N+K) and of its float32 cast; policy queries repeated after the search with other C and after continuing a subtree. Node.policy_probs is REGENERATED from the source (gen/MctsGen.v) and proved equal to the model's policy_inputs/policy_probs with the multiplier equal to the binary64 mirror (C09_source_*).", "6/C09"),
+            "Solver output accuracy is C10's; the multiplier is compared BIT FOR BIT with a binary64 SpecFloat mirror (model/LambdaF64.v) of c*sqrt(N)/(N+K) and of its float32 cast; policy queries repeated after the search with other C and after continuing a subtree. Node.policy_probs is REGENERATED from the source (gen/MctsGen.v) and proved equal to the model's policy_inputs/policy_probs with the multiplier equal to the binary64 mirror; the regenerated select_root_move / get_move return a move the rules accept (C09_source_*). An extreme-policy family (cutoff 1e-12, priors 1e-9..1e-12 on the best child) reaches the solver's collapse regime through the real search and is judged by C10's acceptance rule.", "6/C09"),
     "C10": (True, "Partial. The bisection is written once, generic in the arithmetic; proved in exact rationals (no Reals axioms): f "
             "strictly decreasing above max q, the initial bracket contains the root, bisection keeps it bracketed with width "
             "lambda/2^k, the Python exit rule returns within 32 iterations (the AssertionError is unreachable), the output is "
